@@ -100,4 +100,11 @@ def lenMsg (m : MsgM) (compress : Bool) : Option Nat :=
   (lenSection q.1 q.2 m.answer).bind (fun a => (lenSection a.1 a.2 m.ns).bind (fun n =>
     (lenSection n.1 n.2 m.extra).map (·.1)))
 
+/-- `r.len(off, compression)` of a question or a record, as `Truncate` calls it (a record outside the length algebra
+    counts as nothing: callers check `lenRRC` first) -/
+def lenItem (c : Option (List Bytes)) (off : Nat) (r : Sum Qm RRm) : Nat × Option (List Bytes) :=
+  match r with
+  | .inl q => ((domainNameLen q.name off c true).1 + 4, (domainNameLen q.name off c true).2)
+  | .inr rr => (lenRRC off c rr).getD (0, c)
+
 end Dns.Len
